@@ -13,7 +13,7 @@ done
 python3 tools_gen_manifest.py
 python3 tools/seed_table.py
 python3 tools/mutant_table.py 2>/dev/null
-python3 tools/budget_table.py "${1:-/var/tmp/thorough_final.log}"
+python3 tools/budget_table.py "${1:-/verif/tools/logs/thorough_last.log}"
 python3-vt - <<'PY'
 import json, jsonschema, glob
 jsonschema.validate(json.load(open('/verif/MANIFEST.json')), json.load(open('/root/.vp/MANIFEST.schema.json')))
